@@ -745,13 +745,15 @@ def run_c13(ctx):
     _merge_dist(ctx, summary)
     viol = []
     for d in summary.get('direct_failures') or []:
-        e = {k: d.get(k) for k in ('subject', 'clip', 'ct', 'fr', 'mode', 'v', 'k', 'path', 'q')}
-        viol.append({'key': d.get('known_key') or fw.input_key(e), 'kind': d.get('kind'), 'text': str(d.get('kind')) + ' ' + str(d.get('panic', '')), 'detail': {'corpus_entry': e}})
+        e = {k: d.get(k) for k in ('subject', 'clip', 'ct', 'fr', 'mode', 'v', 'k', 'path', 'q', 'eps', 'closed', 'op') if d.get(k) is not None}
+        viol.append({'key': d.get('known_key') or fw.input_key(e), 'kind': d.get('kind'), 'text': str(d.get('kind')) + ' ' + str(d.get('panic', '')) + ' ' + json.dumps(e)[:300], 'detail': {'corpus_entry': e, 'failure': {k: d[k] for k in d if len(str(d[k])) < 2000}}})
     seen = set()
     for cid, res in results.items():
         m = meta[cid]
         ctx['evaluations'] += 1
         entry = {k: m.get(k) for k in ('subject', 'clip', 'ct', 'fr', 'mode', 'v', 'k')}
+        if m.get('op'):
+            entry['op'] = m['op']
         key = fw.input_key(entry)
         seen.add(key)
         if len(ctx['samples']) < 3:
@@ -762,7 +764,7 @@ def run_c13(ctx):
         if m['mode'] == 'translate':
             sets, band, r2 = [m['out_base'], m['out_back']], geom.closed_edges(m['subject']) + geom.closed_edges(m['clip']), 4
             pred = lambda w: (w[0] % 2 != 0) == (w[1] % 2 != 0)
-            what = 'translation by %s' % m['v']
+            what = '%stranslation by %s' % ((m['op'].split()[0] + ': ') if m.get('op') else '', m['v'])
             bits = 0
         else:
             S, C = m['ks'], m['kc']
@@ -898,7 +900,7 @@ def run_c18(ctx):
     env['VERIF_RACE_ROUNDS'] = str(rounds)
     rc, out, dt = fw.sh(['go', 'test', '-race', '-tags', 'verif', '-run', 'TestConcurrent', '-count=1', '.'],
                         cwd=os.path.join(root, 'harness'), timeout=_tier(ctx, 900, 3600), env=env)
-    nops = 21
+    nops = 24
     ctx['evaluations'] += rounds * 32 * nops
     ctx['nontrivial'] += rounds * nops
     ctx['distribution']['race_rounds'] = rounds
